@@ -119,6 +119,12 @@ func (f *faulty) WriteTx(ctx context.Context, name string, r io.Reader) (ltx.TXI
 	}
 	f.mu.Unlock()
 	switch mode {
+	case "after":
+		// the service stores the file; its answer is lost
+		if _, err := f.inner.WriteTx(ctx, name, r); err != nil {
+			return 0, err
+		}
+		return 0, errors.New("injected: the service's answer was lost")
 	case "before":
 		_, _ = io.Copy(io.Discard, r)
 		return 0, errors.New("injected: upload refused")
@@ -659,6 +665,23 @@ func background(c *common.Ctx, r *common.Rand, kind string) error {
 	c.Evaluations++
 	if !watch("first upload", 8*time.Second) {
 		return nil
+	}
+	// a lost answer: the service stored the upload, the primary is told it failed; the next commit follows
+	for i := 0; i < 2; i++ {
+		p.fl.mu.Lock()
+		p.fl.failWrite = "after"
+		p.fl.mu.Unlock()
+		if err := commit(1); err != nil {
+			return err
+		}
+		time.Sleep(time.Duration(150+100*i) * time.Millisecond)
+		if err := commit(1); err != nil {
+			return err
+		}
+		c.Evaluations++
+		if !watch("an upload whose answer was lost, then another commit", 10*time.Second) {
+			return nil
+		}
 	}
 	// the service is unreachable while the primary commits more than 256 transactions
 	p.fl.mu.Lock()
